@@ -121,6 +121,9 @@ def c_check_cache(tin: List[int], tout: List[int], out1_exists: bool,
         for i in range(NF):
             e = ctx.build['find_cache'][FILTERS[i]]
             ok = ok and (list(e.found), list(e.extra)) == _cats(fresh[i])
+        # ... and so are the directories that were walked: they become the regeneration triggers
+        # (.bfg_find_deps) of the build files about to be written
+        ok = ok and Path('s', Root.srcdir, directory=True) in ctx.build['find_dirs']
     return R(ok)
 
 
@@ -151,3 +154,69 @@ def k_cache_key(i1: int, i2: int, i3: int, ti: int, ex: int, xt: int) -> bool:
         raise
     g = bfind.FileFilter.from_json(f.to_json(), {})
     return R(g == f and hash(g) == hash(f) and not (g != f))
+
+
+# ---- the saved input list == the inputs of the backend's regenerate rule ----------------------
+from bfg9000.builtins import regenerate as bregen
+from bfg9000.backends.make.syntax import Makefile
+from bfg9000.backends.ninja.syntax import NinjaFile
+
+
+class _Tool:
+    metadata_file = Path('mopack/mopack.json')
+
+    def __call__(self, *args, **kwargs):
+        return ['tool'] + [a for a in args if isinstance(a, str)]
+
+
+class _TC:
+    def __init__(self, path):
+        self.path = path
+
+
+class _REnv:
+    backend = 'make'
+    backend_version = None
+
+    def __init__(self, has_tc, has_mopack):
+        self.toolchain = _TC(Path('/tc/toolchain.bfg', Root.absolute) if has_tc else None)
+        self.mopack = [Path('mopack.yml', Root.srcdir)] if has_mopack else []
+
+    def tool(self, name):
+        return _Tool()
+
+
+class _RBuild(dict):
+    def __init__(self, n_boot, has_depfile):
+        self.bootstrap_paths = [Path('build.bfg', Root.srcdir), Path('options.bfg', Root.srcdir),
+                                Path('sub/build.bfg', Root.srcdir)][:n_boot]
+        r = bregen.Regenerate()
+        r.outputs = []
+        self['regenerate'] = r
+
+    def add_target(self, t):
+        return t
+
+
+def i_inputs_agree(n_boot: int, has_tc: bool, has_mopack: bool, ninja: bool) -> bool:
+    """the inputs recorded for the lazy check (RegenerateFiles.make, saved in .bfg_find_cache) are
+    exactly the inputs the backend's regenerate rule depends on: otherwise the backend re-runs
+    bfg9000 for an edit that the lazy check then declares irrelevant
+    pre: 1 <= n_boot <= 3
+    post: _
+    """
+    env = _REnv(has_tc, has_mopack)
+    env.backend = 'ninja' if ninja else 'make'
+    build = _RBuild(n_boot, False)
+    saved = bregen.RegenerateFiles.make(build, env)
+    if ninja:
+        nf = NinjaFile('build.bfg')
+        bregen.ninja_regenerate_rule(build, nf, env)
+        b = [x for x in nf._builds if x.rule == 'regenerate'][0]
+        rule_inputs, rule_outputs = b.implicit, b.outputs
+    else:
+        mk = Makefile('build.bfg')
+        bregen.make_regenerate_rule(build, mk, env)
+        r = mk._rules[-1]
+        rule_inputs, rule_outputs = r.deps, r.targets
+    return R(list(saved.inputs) == list(rule_inputs) and list(saved.outputs) == list(rule_outputs))
